@@ -1,6 +1,7 @@
 import Agd.Tie.TrC09
 import Agd.Lemmas.Ratelimit
 import Agd.Lemmas.RatelimitHist
+import Agd.Lemmas.RatelimitFront
 import Agd.Lemmas.RatelimitConc
 import Agd.Tie.C09
 /-!
@@ -752,9 +753,52 @@ theorem profile_any_not_refused_counterexample :
   revert this
   decide
 
+/-! ## Round 4: the answers `Wrap` gives in front of the limiter -/
+
+/-- **early_answers_are_rate_limited.** Whole histories through the repaired `ratelimitmw.Middleware.Wrap`
+(`frontRun`): requests of all six classes — spoofed (port 0), access-blocked, unknown dedicated address,
+device-finder error (answered SERVFAIL by the server), malformed ECS option (answered FORMERR by the
+middleware), ordinary — in any mix, with any profiles, protocols, clients, query types and response sizes.
+What each client receives (`silent`, the upstream's answer, FORMERR, SERVFAIL) is exactly what the
+declarative specification says: the first three classes are silent and leave no trace; every other
+request is ONE request of the window-log specification `mwSpecStep` — dropped without any response iff
+the specification drops it, and otherwise answered by whoever answers that class, the FORMERR weighed
+⌊len / est⌋ like any response.  In particular no class of request obtains responses beyond the limit. -/
+theorem early_answers_are_rate_limited (c : Cfg) (h4 : 0 ≤ c.v4ivl) (h6 : 0 ≤ c.v6ivl)
+    (profs : Nat → Option PSpec) (hfresh : ∀ id p, profs id = some p → p.log = [])
+    (fs : List FReq) (hch : FChain 0 fs) :
+    frontRun c (HSt.init profs) fs = frontSpecRun c { glob := ESpec.empty, profs := profs } fs :=
+  front_run_sim c h4 h6 fs _ _ 0 (hsim_init c profs hfresh) hch
+
+/-- Non-vacuity: the hypotheses hold for that history, and only the first FORMERR and the first
+SERVFAIL are sent; the ordinary query of the first client is dropped because of the FORMERR it got. -/
+example : FChain 0 exFront ∧ 0 ≤ exCfgFront.v4ivl ∧ 0 ≤ exCfgFront.v6ivl ∧
+    frontRun exCfgFront (HSt.init (fun _ => none)) exFront =
+      [.formerr, .silent, .silent, .servfail, .silent, .silent, .silent, .upstream] := by
+  refine ⟨exFront_chain, by decide, by decide, ?_⟩
+  rw [early_answers_are_rate_limited exCfgFront (by decide) (by decide) (fun _ => none)
+    (fun _ _ h => by cases h) exFront exFront_chain]
+  decide
+
+/-- **early_answer_unthrottled_counterexample.** The code as found (`frontStepOld`: SERVFAIL for a
+device-finder error and FORMERR for a malformed ECS option are given before the limiter is asked)
+does not satisfy the specification: with a limit of one query per window, every one of three
+malformed-ECS queries and both malformed-device-id queries is answered.  Repaired by the `fix:`
+commit "ratelimitmw: rate limit the responses to device errors and malformed ecs options". -/
+theorem early_answer_unthrottled_counterexample :
+    ¬ ∀ (c : Cfg) (fs : List FReq), 0 ≤ c.v4ivl → 0 ≤ c.v6ivl → FChain 0 fs →
+      frontRunOld c (HSt.init (fun _ => none)) fs =
+        frontSpecRun c { glob := ESpec.empty, profs := fun _ => none } fs := by
+  intro h
+  have := h exCfgFront exFront (by decide) (by decide) exFront_chain
+  revert this
+  decide
+
 end Agd.Ratelimit
 
 #print axioms Agd.Ratelimit.mw_history_is_window_log
+#print axioms Agd.Ratelimit.early_answers_are_rate_limited
+#print axioms Agd.Ratelimit.early_answer_unthrottled_counterexample
 #print axioms Agd.Ratelimit.host_prefix_contains_iff
 #print axioms Agd.Ratelimit.consul_refresh_exact
 #print axioms Agd.Ratelimit.refreshed_history_refines_epoch_log
